@@ -52,6 +52,21 @@ def main():
         json.dump(out, open(args["out"], "w"))
         return 0
 
+    if args["role"] == "failer":
+        # an import that is going to fail (duplicate ids under the default strategy), started once all healthy
+        # importers hold a live intermediate file; they are released only after it has failed
+        deadline = time.time() + 30
+        while time.time() < deadline and len(glob.glob(os.path.join(args["barrier_dir"], "*.arrived"))) < args["n"]:
+            time.sleep(0.002)
+        err = None
+        try:
+            gffutils.create_db(args["input"], args["out_db"]).conn.close()
+        except BaseException as ex:
+            err = repr(ex)
+        open(args["marker"], "w").close()
+        json.dump({"pid": os.getpid(), "log": log, "barrier": None, "error": err, "failer": True}, open(args["result"], "w"))
+        return 0
+
     if args.get("barrier"):
         mon = sys.monitoring
         tool = 4
@@ -62,6 +77,10 @@ def main():
             if code.co_name in targets and code.co_filename.endswith("create.py") and state["barrier"] is None:
                 seen_at_arrival = sorted(os.path.basename(p) for p in glob.glob(os.path.join(tmpdir, "*.gffutils")))
                 timed_out = wait_for(args["barrier_dir"], args["n"], str(os.getpid()), args.get("barrier_timeout", 20))
+                if args.get("wait_marker"):
+                    deadline = time.time() + 30
+                    while time.time() < deadline and not os.path.exists(args["wait_marker"]):
+                        time.sleep(0.002)
                 seen_at_release = sorted(os.path.basename(p) for p in glob.glob(os.path.join(tmpdir, "*.gffutils")))
                 state["barrier"] = {"arrival": seen_at_arrival, "release": seen_at_release, "timed_out": timed_out,
                                     "where": code.co_name}
